@@ -82,6 +82,8 @@ def main():
                              detected_by=prev.get("detected_by"), checks={k: dict(rc=v["rc"], keys=v["keys"][:3]) for k, v in prev.get("checks", {}).items()}))
             meta["previous_runs"] = hist
         meta["verif_head"] = sh("git -C /verif rev-parse --short HEAD")[1].strip()
+        if os.environ.get("SEED_NOTE"):
+            meta["note"] = os.environ["SEED_NOTE"]
         for f in ("patch.diff", demo, "NOTES.md"):
             if (src / f).exists():
                 shutil.copy(src / f, dst / f)
